@@ -94,6 +94,23 @@ fn alphabet(n: usize, tier: Tier) -> Vec<Dev> {
             s.variants[i].detailed_message = Some("line1\nline2\t%s \\".into());
             true
         }));
+        d.push(dev(format!("v{}.ascii_case_insensitive + serialize=[\"yes\", \"YES\"] + to_string=\"Yes\"", i), &[&format!("ser{}", i), &format!("tos{}", i)], move |s| {
+            s.variants[i].aci = Some(Aci::Bare);
+            s.variants[i].serialize = vec!["yes".into(), "YES".into()];
+            s.variants[i].to_string = Some("Yes".into());
+            true
+        }));
+        d.push(dev(format!("v{}.default(String) + serialize=[\"word\", \"WORD\"]", i), &[&format!("ser{}", i), &format!("kind{}", i), "default"], move |s| {
+            s.variants[i].default = true;
+            s.variants[i].kind = Kind::Tuple(vec![FieldTy::Str]);
+            s.variants[i].serialize = vec!["word".into(), "WORD".into()];
+            true
+        }));
+        d.push(dev(format!("v{}.default(String), no literal", i), &[&format!("kind{}", i), "default"], move |s| {
+            s.variants[i].default = true;
+            s.variants[i].kind = Kind::Tuple(vec![FieldTy::Str]);
+            true
+        }));
         d.push(dev(format!("v{}.detailed_message", i), &[&format!("det{}", i)], move |s| {
             s.variants[i].detailed_message = Some(format!("d{} é", i));
             true
